@@ -213,6 +213,9 @@ class World:
             elif kind == 'setname':
                 self.begin('setname', name=op[1])
                 m.name = op[1] or None
+            elif kind in ('mforce', 'mclear'):      # set() / clear() of the MultiEvent itself
+                self.begin(kind)
+                (m.set if kind == 'mforce' else m.clear)()
             else:
                 raise MachineryError(f'unknown operation {op}')
         except ds.SchedAbort:
@@ -334,6 +337,12 @@ def replay_behaviour(beh, dto):
                     m.queue(action(st['a'], st['a'] in RAISING))
                 elif act == 'setname':
                     m.name = st['name'] or None
+                elif act in ('mforce', 'mclear'):
+                    try:
+                        (m.set if act == 'mforce' else m.clear)()
+                        got['exc'] = 'accepted'
+                    except ValueError:
+                        pass
                 elif act == 'tick':
                     ns['time'].sleep(1)
                 elif act == 'wait':
@@ -430,6 +439,9 @@ SCEN = {
                     a=[('sleep', 6), ('set', 'e3')], w1=[('wait', 3), ('wait', None)], w2=[('sleep', 7), ('wait', None), ('deadline',)]),
     'zero_default': _sc(0, main=[('new', 'e1', None, None), ('trig', 'e2', 0, 'x'), ('new', 'e3', 4, None), ('deadline',), ('spawn', ['a', 'w1'])],
                         a=[('sleep', 5), ('set', 'e3'), ('deadline',), ('set', 'e1')], w1=[('wait', None), ('wfor',), ('wait', 2)]),
+    # set() / clear() of the MultiEvent itself are refused and change nothing
+    'direct': _sc(None, main=[('new', 'e1', 5, None), ('spawn', ['a', 'b', 'w1'])],
+                  a=[('mforce',), ('set', 'e1'), ('mclear',)], b=[('mclear',), ('queue', 'a1')], w1=[('wait', None), ('mset',)]),
     'stuck': _sc(None, main=[('new', 'e1', None, None), ('spawn', ['w1', 'a'])], w1=[('wait', None)], a=[('wait', 2), ('deadline',)]),
     # an action that takes time (it runs under the lock): creation and waiting meanwhile
     'slow_action': _sc(None, {'a1': 'slow'}, main=[('new', 'e1', None, None), ('queue', 'a1'), ('spawn', ['a', 'b', 'w1'])],
@@ -466,8 +478,10 @@ def random_scenario(seed):
                 ops.append(('deadline',))
             elif r < 0.7:
                 ops.append(('isset', rnd.choice(ids + mine)))
-            elif r < 0.74:
+            elif r < 0.72:
                 ops.append(('mset',))
+            elif r < 0.74:
+                ops.append((rnd.choice(['mforce', 'mclear']),))
             elif r < 0.84:
                 a = next(acts, None)
                 if a:
@@ -711,11 +725,14 @@ def _model_trace(beh, init):
     return tr
 
 
-def model_conformance(chk, scenarios):
-    """behaviours of the line-level model, projected to observable events, judged by the contract"""
+def conformance_thunks(scenarios):
     names = [(m, sc) for sc in scenarios for m in ('fixed', 'asimpl')]
-    outs = run_parallel([lambda m=m, sc=sc: emit_behaviours('Gen_MultiEventXCode', f'Gen_MultiEventXCode_{m}_{sc}.cfg',
-                                                             maximal_only=False, timeout=1400) for m, sc in names], width=4)
+    return names, [lambda m=m, sc=sc: emit_behaviours('Gen_MultiEventXCode', f'Gen_MultiEventXCode_{m}_{sc}.cfg',
+                                                       maximal_only=False, timeout=1400) for m, sc in names]
+
+
+def model_conformance(chk, names, outs):
+    """behaviours of the line-level model, projected to observable events, judged by the contract"""
     traces, origin = [], []
     for (m, sc), (r, behs) in zip(names, outs):
         chk.add_tlc(r)
@@ -789,7 +806,9 @@ def run(chk):
     for gname in gens:
         thunks.append(lambda gname=gname: emit_behaviours('Gen_MultiEventX', f'Gen_MultiEventX_{tier}_{gname}.cfg',
                                                           maximal_only=False, timeout=1400))
-    out = run_parallel(thunks, width=6)
+    cnames, cthunks = conformance_thunks(('server', 'late') if quick else ('server', 'late', 'new', 'queue'))
+    out = run_parallel(thunks + cthunks, width=8)
+    out, cout = out[:len(thunks)], out[len(thunks):]
     for r in out[:n_ok]:
         chk.add_tlc(r)
     for c, r in zip(must, out[n_ok:n_ok + len(must)]):
@@ -809,7 +828,7 @@ def run(chk):
     for gname, (r, b) in zip(gens, out[n_ok + len(must):]):
         chk.add_tlc(r)
         behs += [(x, GEN_DTO[gname]) for x in b]
-    model_conformance(chk, ('server', 'late') if quick else ('server', 'late', 'new', 'queue'))
+    model_conformance(chk, cnames, cout)
     stage['tlc'] = round(_t.time() - t0, 1)
 
     # ---- 2 spec -> code
